@@ -3,7 +3,7 @@ from .common import *
 ID = 'C01'
 HARNESSES = ['h_c01.cpp', 'h_hist.cpp']
 LEVEL = 'model_checking'
-BUDGET = {'quick': 280, 'thorough': 3000}
+BUDGET = {'quick': 280, 'thorough': 3600}
 BOUNDS = {'quick': 'shapes P,C<=2 S<=2 F<=2; 3 construction orders; one extra parameter (int/float/string, 0..3 dims of extent<=3, name<=4 chars, description<=3 chars); all floats, 16-bit ints, characters, lock flags symbolic; parameter-section length swept through all 512 residues modulo the block size; all histories of 2 operations from the populated start state followed by save -> load -> full comparison',
           'thorough': 'shapes P,C<=3 S<=3 F<=3; 3 construction orders; extra parameter int/float/string with 0..7 dims, descriptions 0/1/17 chars, symbolic point/channel names; all payload symbolic'}
 OUTSIDE = 'more than 3 points/channels/sub-frames/frames; strings longer than 17 chars; BYTE-typed parameters (no public setter); integer values outside int16 (C17)'
@@ -79,8 +79,13 @@ def jobs(tier, seed):
     # construction histories: every history of 2 operations (56-operation alphabet of the history harness) from the declared and
     # the populated start state, then save -> load -> full comparison
     from . import histcommon
-    for j in histcommon.hist_jobs(tier, seed, finish=3):
-        if j['cfg']['start'] in ((2,) if tier == 'quick' else (0, 1, 2, 3)): out.append(j)
+    # (start states that declare a channel: for objects without channels the sub-frame count of a built object (0) and of a loaded one (the
+    # ratio of the rates) differ by design and the statement fixes it only when there is at least one channel - section 10)
+    for j in histcommon.hist_jobs('quick', seed, finish=3):
+        if j['cfg']['start'] == 2: out.append(j)
+    if tier == 'thorough':
+        for j in histcommon.hist_jobs('thorough', seed, finish=3):
+            if j['cfg']['start'] == 2: out.append(j)
     # symbolic point/channel names
     J(P=2, C=2, S=1, F=1, order=0, symnames=1)
     if tier == 'thorough':
